@@ -70,3 +70,8 @@ pub assume_specification[ f64::floor ](x: f64) -> (r: f64) ensures r == f64_floo
 pub uninterp spec fn f64_epsilon_spec() -> f64;
 #[verifier::external_body]
 pub fn vx_f64_epsilon() -> (r: f64) ensures r == f64_epsilon_spec() { f64::EPSILON }
+// loop counters of probabilistically terminating loops: release-mode (wrapping) semantics
+pub fn vx_wrapping_incr_i32(i: i32) -> (r: i32) ensures r == (if i == i32::MAX { i32::MIN } else { (i + 1) as i32 }) { i.wrapping_add(1) }
+pub uninterp spec fn f64_neg_spec(x: f64) -> f64;
+#[verifier::external_body]
+pub fn vx_f64_neg(x: f64) -> (r: f64) ensures r == f64_neg_spec(x) { -x }
